@@ -144,7 +144,7 @@ def engine_ksched(pid, tier, seed, res, max_n=None):
     # exhaustive exploration of the controller's choices (every completion order, every set of simultaneous
     # completions) for small cases: the corpus in the quick tier, all small shapes in the thorough tier
     n_complete = 0
-    dfs_cases = [c for c in cases[:corpus_n] if c.get("mode", "call") == "call"][: (4 if tier == "quick" else 8)]
+    dfs_cases = [c for c in cases[:corpus_n] if c.get("mode", "call") == "call" and (tier != "quick" or c["n"] <= 4)]
     if tier == "thorough":
         for n_, edges_ in sched_cases.all_small_shapes(3):
             for _ in range(2):
@@ -157,7 +157,7 @@ def engine_ksched(pid, tier, seed, res, max_n=None):
                 c["maxc"] = rng.randint(1, 3)
                 dfs_cases.append(c)
     for c in dfs_cases:
-        recs, complete = ksched.explore_all_schedules(c, max_runs=40 if tier == "quick" else 250)
+        recs, complete = ksched.explore_all_schedules(c, max_runs=60 if tier == "quick" else 250)
         records.extend(recs)
         n_complete += 1 if complete else 0
     res.notes.append("all schedules explored exhaustively for %d of %d small cases (%s)" % (n_complete, len(dfs_cases), "quick: corpus" if tier == "quick" else "all shapes <= 3 nodes x 2 attribute assignments + corpus"))
@@ -355,10 +355,10 @@ HIST_RULE = ("K-hist cases: random DAGs with setup / debug nodes and defaulted p
 HIST_ASSUME = ["setup node functions are pure (their stored value equals what a re-computation would give)", "pickle round-trips the results faithfully", "graphs / node table read from the DAG the implementation built (layering)"]
 for _p in ("C11", "C15", "C18"):
     REGISTRY[_p] = dict(engines=[engine_khist.run], rule=HIST_RULE, assumptions=HIST_ASSUME)
-REGISTRY["C03"]["engines"] = [engine_ksched, engine_khist.run]
+REGISTRY["C03"]["engines"] = [engine_ksched, engine_khist.run, engine_kgraph.run]
 REGISTRY["C11"]["engines"] = [engine_khist.run, engine_kgraph.run]
 REGISTRY["C11"]["rule"] = HIST_RULE + " || " + GRAPH_RULE
-REGISTRY["C03"]["rule"] = SCHED_RULE + " || " + HIST_RULE
+REGISTRY["C03"]["rule"] = SCHED_RULE + " || " + HIST_RULE + " || " + GRAPH_RULE
 
 from . import engine_kcompose  # noqa: E402
 
